@@ -66,6 +66,8 @@ def main():
                 else:
                     rc, o = sh([binp, "-repo", wt, "-verif", VERIF, "-prop", "all", "-tier", "quick", "-no-evidence"])
                     cur = None
+                    if rc not in (0, 1) or "property " not in o:
+                        rep = {"?": ["checker crashed or did not run (rc=%d): %s" % (rc, o.strip()[:300])]}
                     for line in o.splitlines():
                         if line.startswith("property "):
                             cur = line.split()[1]
@@ -99,6 +101,10 @@ def main():
             else:
                 meta["reported"] = rep
             json.dump(meta, open(mp, "w"), indent=1)
+        if "?" in rep:
+            bad += 1
+            print("BROKEN  %-7s %s" % (d, rep["?"][0][:300]))
+            continue
         if corpus == "seeded":
             prop = meta["property"]
             if prop not in rep:
